@@ -20,3 +20,14 @@ Theorem stop_returns_bridge m s :
   (stop_returns_sync m (status_name (s_status s)) = false -> s_status (stop_interp s) = Stopped) /\
   (stop_returns_async m (status_name (s_status s)) = false -> s_status (stop_interp s) = Stopped).
 Proof. unfold stop_interp. destruct (s_status s); cbn; repeat split; intros H; try reflexivity; discriminate. Qed.
+
+(* _fail / _complete (shared by both engines): when they are ignored *)
+Theorem fail_ignored_bridge m s :
+  (fail_ignored m (status_name (s_status s)) = true -> fail_machine s = s) /\
+  (fail_ignored m (status_name (s_status s)) = false -> s_status (fail_machine s) = Errored).
+Proof. unfold fail_machine. destruct (s_status s); cbn; split; intros H; try reflexivity; discriminate. Qed.
+
+Theorem complete_ignored_bridge m out s :
+  (complete_ignored m (status_name (s_status s)) = true -> complete out s = s) /\
+  (complete_ignored m (status_name (s_status s)) = false -> s_status (complete out s) = Done /\ s_output (complete out s) = out).
+Proof. unfold complete. destruct (s_status s); cbn; split; intros H; try reflexivity; try discriminate; now split. Qed.
